@@ -1,12 +1,35 @@
 //! Plan minimiser (delta debugging on the op list, then on the key shapes and arguments).  A
 //! candidate is accepted only if the same (property, key) violation still occurs.
 
-use crate::exec::run_plan;
 use crate::plan::*;
+use crate::report::RunReport;
+use std::cell::Cell;
 use std::time::{Duration, Instant};
+
+thread_local! {
+    /// evaluate every candidate in a fresh child process (the violation depends on process-wide history of
+    /// the library, so evaluating candidates in this long-lived process would be unsound)
+    static IN_CHILD: Cell<bool> = Cell::new(false);
+}
+
+fn run_plan(plan: &Plan, keep_events: bool) -> RunReport {
+    if IN_CHILD.with(|c| c.get()) {
+        crate::check::run_plan_in_child(plan).unwrap_or_default()
+    } else {
+        crate::exec::run_plan(plan, keep_events)
+    }
+}
 
 fn fails(plan: &Plan, property: &str, key: &str) -> bool {
     run_plan(plan, false).violations.iter().any(|v| v.property == property && v.key == key)
+}
+
+/// Minimise with every candidate executed in a fresh child process.
+pub fn minimise_in_children(plan: &Plan, property: &str, key: &str, budget_s: u64) -> Plan {
+    IN_CHILD.with(|c| c.set(true));
+    let r = minimise(plan, property, key, budget_s);
+    IN_CHILD.with(|c| c.set(false));
+    r
 }
 
 pub fn minimise(plan: &Plan, property: &str, key: &str, budget_s: u64) -> Plan {
